@@ -117,6 +117,19 @@ def main():
 
         for f in unrelated_objects(2):
             ffcx.compiler.compile_ufl_objects([f], options=ffcx.options.get_options({}), namespace="x")
+    if case.get("history") == "churn":
+        # name many short-lived near-miss requests first: their objects are freed, later objects reuse their addresses
+        import gc
+
+        for q in range(case.get("k", 25)):
+            r0 = case["requests"][0]
+            kind0 = "expr" if (r0["recipe"].get("p", {}).get("kind") == "expr" or "expr" in r0["recipe"]["b"]) else "form"
+            tmp = {"recipe": {"b": "nearmiss", "cell": r0["recipe"].get("cell", "triangle"), "p": {"kind": kind0, "literal": 1.0 + 0.01 * q, "power": 2 + q % 3}}, "digest": False}
+            try:
+                names_and_digest(tmp)
+            except Exception:
+                pass
+            gc.collect()
     res = []
     for req in case["requests"]:
         try:
